@@ -72,7 +72,7 @@ type c07Case struct {
 var profC07Frames = Profile{
 	MaxBars: 8, MinBars: 3, MaxSteps: 30, Refresh: []string{"manual"}, QLens: []int{-1},
 	Pop: 20, Rm: 40, AbortW: 4, TicksW: 10, Ext: 20, Text: 1, Pty: 100, PtyRowsMax: 5,
-	PlainDecors: 1, SyncDecors: 1, Fillers: []string{"bar", "nop", "spinner"}, LateAdd: true, ChurnW: 2, BuiltinPct: 30, // (the harness's own "tag" filler ignores the width it is given)
+	PlainDecors: 1, SyncDecors: 1, Fillers: []string{"bar", "nop", "spinner", "spinnerv"}, LateAdd: true, ChurnW: 2, BuiltinPct: 30, // (the harness's own "tag" filler ignores the width it is given)
 }
 
 func init() {
@@ -188,9 +188,7 @@ func genC07(t *rapid.T) interface{} {
 			c.Decors = append(c.Decors, genC07Decor(t, true))
 		}
 		c.Pty = rapid.IntRange(0, 3).Draw(t, "pty") == 0
-		if c.Pty && c.TW == 0 {
-			c.TW = 1 // a pty of 0 columns is not a terminal size
-		}
+		// (a pty that was never sized reports 0 columns: nothing fits, nothing may be drawn)
 		// the row mode drives a real bar: keep the counters in the documented domain
 		if c.Total < 0 {
 			c.Total = 0
